@@ -12,6 +12,7 @@
 use rten_text::models::{DecodeError, EncodeError, Model};
 use rten_text::tokenizer::{EncodeOptions, EncoderInput, TokenizerOptions};
 use rten_text::{TokenId, Tokenizer};
+use std::panic::{catch_unwind, AssertUnwindSafe};
 
 struct ByteModel;
 
@@ -65,6 +66,7 @@ fn check_windows(chunks: &[Vec<TokenId>], full: &[u8], window: usize, overlap: u
 
 #[test]
 fn enumerate() {
+    std::panic::set_hook(Box::new(|_| {}));   // panics are reported through FOUND lines
     let mut found = 0usize;
     let mut cases = 0usize;
     for cls in [false, true] {
@@ -80,7 +82,13 @@ fn enumerate() {
                         if window > 0 && overlap >= window { continue; }
                         cases += 1;
                         let opts = EncodeOptions { max_chunk_len: Some(max), overlap };
-                        let chunks = match t.encode_chunks(EncoderInput::Item(text), opts) {
+                        let res = catch_unwind(AssertUnwindSafe(|| t.encode_chunks(EncoderInput::Item(text), opts)));
+                        let Ok(res) = res else {
+                            if found < 10 { println!("FOUND kind=single cls={cls} sep={sep} max={max} overlap={overlap} len={len} problem=panic"); }
+                            found += 1;
+                            continue;
+                        };
+                        let chunks = match res {
                             Ok(c) => c,
                             Err(e) => { if found < 10 { println!("FOUND kind=single cls={cls} sep={sep} max={max} overlap={overlap} len={len} error={e:?}"); found += 1; } continue; }
                         };
@@ -113,7 +121,13 @@ fn enumerate() {
                             if window > 0 && overlap >= window { continue; }
                             cases += 1;
                             let opts = EncodeOptions { max_chunk_len: Some(max), overlap };
-                            let chunks = match t.encode_chunks(EncoderInput::Pair((a, b)), opts) {
+                            let res = catch_unwind(AssertUnwindSafe(|| t.encode_chunks(EncoderInput::Pair((a, b)), opts)));
+                            let Ok(res) = res else {
+                                if found < 10 { println!("FOUND kind=pair cls={cls} sep={sep} max={max} overlap={overlap} len=({len_a},{len_b}) problem=panic"); }
+                                found += 1;
+                                continue;
+                            };
+                            let chunks = match res {
                                 Ok(c) => c,
                                 Err(e) => { if found < 10 { println!("FOUND kind=pair cls={cls} sep={sep} max={max} overlap={overlap} len=({len_a},{len_b}) error={e:?}"); found += 1; } continue; }
                             };
@@ -147,6 +161,7 @@ fn enumerate() {
             }
         }
     }
+    let _ = std::panic::take_hook();
     println!("searched {cases} (input, limit, overlap, special-token) combinations");
     assert!(found == 0);
 }
